@@ -24,6 +24,7 @@ def run(ctx):
     add('d2.h3.s2.t1', DT(2, 3, 2, 1, 1), [-2, -1, 1, -1, 0, 0], 240, '')
     add('d2.h3.s1.t2', DT(2, 3, 1, 2, 1), [-2, -1, 1, -1, 0, 0], 240, 'a single source')
     add('d3.h3.s1.t1', DT(3, 3, 1, 1, 1), [1, -1, 1, -1, 0, 0], 240, 'every (source leaf, target leaf) pair of the 4x4x4 grid')
+    add('auto.d2.h3.s2.t1', DT(2, 3, 2, 1, 1), [-100, -1, 1, -1, 0, 0], 240, 'automatic block size (EstimateTsm), hardware threads forked over {1,2,16}')
     if not q:
         add('d1.h5.s2.t2', DT(1, 5, 2, 2, 1), [-3, -1, 1, -2, 0, 0], 1800, '')
         add('d1.h4.s3.t2', DT(1, 4, 3, 2, 1), [-4, -1, 1, -2, 0, 0], 2400, '')
@@ -33,7 +34,7 @@ def run(ctx):
         add('d3.h4.s1.t1', DT(3, 4, 1, 1, 1), [1, 0, 1, -1, 0, 0], 3000, '')
     ctx.bounds.update(dict(trees='Dim 1-3, heights 3-4 (5 thorough), 1-2 sources (3 thorough) x 1-2 targets, block sizes 1..3, both grouping modes, upper level {2,0}',
                            executors='sequential target/source executor; the OpenMP variant is covered (lifetimes, dependencies, results) under C03',
-                           outside='automatic block size; larger particle sets'))
+                           outside='the TBFMM_BLOCK_SIZE environment override; larger particle sets'))
     ctx.assumptions += ASSUME
     e2.run_configs(ctx, S)
     return finish(ctx, TEXT)
